@@ -20,6 +20,7 @@ byte strings as plain hex (`-` = empty), "no value" as `~`.
 * `loader <len> <raw decode outcome>` → `ok <text> | ude <start> <stop> | crash`
 * `euctw-rdec <bytes>` → `ok <text> rt=<0|1> | err <offset> <eilseq|einval>` and `euctw-renc <text>` → `ok <bytes> | err <index>`: the same over
   the tables of the system iconv (`Generated.CharsetCns*`); `rt` = no redundant unit, i.e. encode(decode(b)) = b by `euctw_roundtrip`
+* `lookup <name>` → `none | some <codec name>`: the model of `codecs.lookup(name).name` with the tool installed
 * `refdec <euctw|koi8t> <bytes> <told>` / `refenc <euctw|koi8t> <text> <told>` → `<rc> <consumed> <written>`: ONE conversion call of the
   reference iconv (`Spec/CharsetIconv.lean`) told `<told>` bytes of room — compared with the call the real glibc answered
 * `euctw-dec <bytes> <cns oracle>` → `ok <text> | err <offset> <eilseq|einval>`; `euctw-enc <text> <inverse oracle>` → `ok <bytes> | err <index>`
@@ -209,6 +210,10 @@ def handle (op : String) (args : List String) : String :=
     match eucTwEncodeReal (nameOf t) with
     | .ok bs => s!"ok {showBytes bs}"
     | .error i => s!"err {i}"
+  | "lookup", [n] =>
+    match registryLookup pyAliases pyModules unmangle portableEncodings extraEncodings (nameOf n) with
+    | none => "none"
+    | some c => s!"some {showName c}"
   | "refdec", [cs, b, told] =>
     let bs := bytesOf b
     let unit : UnitFn := if cs == "euctw" then eucUnitFn cnsReal else tableUnitFn (iconv_KOI8_T.map fun o => o.getD undefinedCp)
